@@ -48,6 +48,9 @@ fn run_history(input: &T) -> T {
     let mut outs = vec![];
     for b in 0..n_blocks {
         let gas_price = if b == 0 { price0 } else { pick_price(&mut rng, flags) };
+        if b > 0 {
+            w.resync();
+        }
         let mut txs = match first.take() {
             Some(t) => t,
             None => {
@@ -88,7 +91,7 @@ fn pick_price(rng: &mut Rng, flags: u64) -> u64 {
         // fee of a minimal transaction lands above 2^63
         return *rng.pick(&[300_000_000_000_000u64, 600_000_000_000_000, 1_000_000_000_000_000]);
     }
-    *rng.pick(&[0u64, 0, 1, 1, 2, 5, 1000])
+    *rng.pick(&[0u64, 0, 1, 1, 1, 2, 3, 7, 1000])
 }
 
 fn gen(_prop: &str, rng: &mut Rng, n: u64, tier: &str) -> Vec<T> {
